@@ -241,6 +241,36 @@ class Check:
         os.replace(tmp, p)
 
 
+class Shared:
+    """Run another property's rule module on the same facts and re-file selected obligations under a rule of this check."""
+
+    def __init__(self, outer, rule, select, prefix, suffix=''):
+        self.o = outer
+        self.facts = outer.facts
+        self.tier = getattr(outer, 'tier', 'quick')
+        self.extra = {}
+        self.explanation = ''
+        self._rule, self._select, self._prefix, self._suffix = rule, select, prefix, suffix
+        self.count = 0
+
+    def rule(self, *a):
+        pass
+
+    def analysed(self, *a):
+        pass
+
+    def note(self, *a):
+        pass
+
+    def floor(self, *a, **k):
+        pass
+
+    def ob(self, rule, key, ok, loc='', detail='', nontrivial=True, fn=None):
+        if self._select(rule, key):
+            self.count += 1
+            self.o.ob(self._rule, self._prefix + key, ok, loc, detail + self._suffix, nontrivial, fn)
+
+
 def load_table(name):
     with open(os.path.join(VERIF, 'tables', name)) as fh:
         return json.load(fh)
